@@ -20,6 +20,16 @@ Theorem C09_givens_exact : forall (F : rcfType) (p q : F),
 Proof. move=> F; exact: make_givens_spec. Qed.
 Print Assumptions C09_givens_exact.
 
+(* one iteration of the bulge chase writes exactly the entries of G^T T G (as a quadratic form on the 4x4 window around the
+   rotation plane, bulge included) for the plane rotation G = [c s; -s c] by which the eigenvector matrix is multiplied:
+   every step is an orthogonal similarity, for every (c, s) and every window *)
+Theorem C09_chase_step_is_similarity : forall (F : rcfType) (c s a x z dk sk dk1 e f u0 u1 u2 u3 : F),
+  let '(ndk, ndk1, nsk) := rot_update (OpsF F) c s dk dk1 sk in
+  qform a (c * x - s * z) (s * x + c * z) ndk nsk ndk1 (- s * e) (c * e) f u0 u1 u2 u3 =
+  qform a x z dk sk dk1 0 e f u0 (c * u1 + s * u2) (- s * u1 + c * u2) u3.
+Proof. move=> F c s a x z dk sk dk1 e f u0 u1 u2 u3; exact: chase_step_similarity. Qed.
+Print Assumptions C09_chase_step_is_similarity.
+
 (* TridiagEigen: whenever the main loop returns (instead of signalling the iteration limit, where the C++
    throws), every sub-diagonal entry is exactly zero - for every scalar instance (binary64 included), every
    input, every start state of the loop: numbers are only returned from a fully deflated matrix *)
